@@ -25,6 +25,7 @@ import (
 	"go/token"
 	"path"
 	"reflect"
+	"strconv"
 	"strings"
 	"unicode"
 
@@ -75,7 +76,9 @@ func (m ImportMatcher) Match(file *ast.File, d data.Data) (_ data.Data, ok bool)
 	// A file may import the same path more than once, under different
 	// names. The import matches if any of these imports does.
 	for _, spec := range file.Imports {
-		if goast.ImportPath(spec) != m.Path {
+		// An earlier change of the same run may have put something that is
+		// not a string where the path was; that is not the import we want.
+		if path, err := strconv.Unquote(spec.Path.Value); err != nil || path != m.Path {
 			continue
 		}
 		if md, ok := m.matchSpec(spec, d); ok {
